@@ -267,7 +267,26 @@ func (s *Solver) Values(ts []*Term) map[string]string {
 		names = append(names, refName(t))
 	}
 	s.send("(get-value (" + strings.Join(names, " ") + "))")
-	resp := s.readSexp()
+	// model evaluation can hang as well (seen: > 50 min inside get-value): same watchdog as for check-sat
+	proc := s.cmd.Process
+	killed := false
+	wd := time.AfterFunc(time.Duration(s.TimeoutS+30)*time.Second, func() {
+		killed = true
+		proc.Kill()
+	})
+	var resp string
+	func() {
+		defer wd.Stop()
+		defer func() {
+			if r := recover(); r != nil {
+				if killed {
+					panic(engineErr("solver %s exceeded the hard time limit of %d s on get-value (killed); result inconclusive", s.Name, s.TimeoutS+30))
+				}
+				panic(r)
+			}
+		}()
+		resp = s.readSexp()
+	}()
 	if strings.HasPrefix(strings.TrimSpace(resp), "(error") {
 		panic(engineErr("solver error on get-value: %s", resp))
 	}
